@@ -26,6 +26,7 @@ func c15State(n int, ev int) *GameState {
 	gs.Status.Round = "flop"
 	gs.Status.CurrentWager = vInt64("cw")
 	gs.Status.CurrentPlayer = 0
+	gs.Status.CurrentDeckPosition = vInt("deckpos") // any, also 0 (nothing dealt yet) and out of range
 	gs.Status.Pots = []*pot.Pot{}
 	gs.Status.LastAction = &Action{Source: 0, Type: "check", Value: vInt64("lav")}
 	for i := 0; i < n; i++ {
